@@ -8,7 +8,9 @@ events (hook H4, emitted under the pool mutex) and the holders' events are valid
 A third mode runs without the event sink (which serialises the threads): free-running rounds of
 alloc / capacity check / write pattern / verify / add on a pool pre-filled with interleaved buffers
 (Trace_PoolRace.tla); BufferPoolSplit.tla shows at design level why search and removal must be one
-critical section (Atomic = FALSE: TLC finds the stale-index interleaving)."""
+critical section (Atomic = FALSE: TLC finds the stale-index interleaving). The thorough tier also
+carries the two invariants beyond TLC's bounds: BufferPoolInd.tla is BufferPool.tla without history and
+bounds; TLC checks that BufferPool refines it, Apalache that IndInv is inductive (base + step)."""
 import vlib
 
 
@@ -42,6 +44,12 @@ def run(ctx):
                                label="alloc split in two critical sections: TLC must find the stale-index interleaving")
         if "is violated" not in out:
             raise vlib.ToolError("BufferPoolSplit with Atomic = FALSE did not produce the expected counterexample")
+        # beyond TLC's bounds: BufferPool refines the unbounded, history-free BufferPoolInd (TLC), whose
+        # IndInv (ids closed /\ ExclusiveOwnership /\ PoolOnlyLarge) Apalache shows inductive
+        ctx.tlc_mc("pool/MC_BufferPoolRef", "pool/MC_BufferPoolRef.cfg", workers=6, timeout=1500,
+                   label="refinement BufferPool => BufferPoolInd!Spec (identity mapping) and IndInv in every reachable state")
+        ctx.apalache_inductive("pool/MC_BufferPoolInd", "ConstInit", "Init", "IndInit", "IndInv", timeout=1500,
+                               label="IndInv inductive for any number of operations; 3 threads, pre-state with <= 5 buffers ever created")
     ctx.cov["schedules_generated_by_tlc"] = nh
     ctx.cov["schedules_replayed"] = n
     judge(ctx, [t1, t2, t3])
